@@ -179,6 +179,8 @@ type node struct {
 	stores *ibftstorage.QBFTStores
 	store  *flakyStore
 	full   bool
+	// lastHist: the historical records as rendered by the last observation (height -> record)
+	lastHist map[int]*qbftstorage.StoredInstance
 	// rejectVal makes the runner's/controller's value check reject (the local check changed its mind: slashing DB, beacon state)
 	rejectVal bool
 	cfg    *qbft.Config
@@ -294,9 +296,10 @@ func (n *node) obs() string {
 	for _, i := range n.ctrl.StoredInstances {
 		is = append(is, stateStr(i.State, !i.CanProcessMessages()))
 	}
-	duty, running, rdec := "-", "-", false
+	duty, running, rdec, hasVal := "-", "-", false, false
 	if st := n.run.GetBaseRunner().State; st != nil {
 		duty = strconv.Itoa(int(st.StartingDuty.Slot))
+		hasVal = st.DecidedValue != nil
 		if st.RunningInstance != nil {
 			running = strconv.Itoa(int(st.RunningInstance.GetHeight()))
 			rdec, _ = st.RunningInstance.IsDecided()
@@ -307,10 +310,12 @@ func (n *node) obs() string {
 		panic(err)
 	}
 	var xs []string
+	n.lastHist = map[int]*qbftstorage.StoredInstance{}
 	for _, s := range hist {
 		xs = append(xs, fmt.Sprintf("%d=%s", s.State.Height, storedStr(s)))
+		n.lastHist[int(s.State.Height)] = s
 	}
-	return fmt.Sprintf("H=%d I=%s R=%s/%s/%s/%d S=%s X=%s", n.ctrl.Height, strings.Join(is, ","), duty, running, b01(rdec),
+	return fmt.Sprintf("H=%d I=%s R=%s/%s/%s/%s/%d S=%s X=%s", n.ctrl.Height, strings.Join(is, ","), duty, running, b01(rdec), b01(hasVal),
 		runner.VerifHeightsHighestDecidedSlot(n.run), storedStr(n.highest()), strings.Join(xs, ","))
 }
 
@@ -406,6 +411,25 @@ func (o *oracle) highestChanged(run *hx.Run, a, b *qbftstorage.StoredInstance) {
 			ha, ma.Message.Round, ka, signersStr(ma.Signers), mb.Message.Round, kb, signersStr(mb.Signers), a.State.Round), o.replay()...)
 }
 
+// a historical record (keyed by height) changed from a to b by one step: same rule as for the highest record
+func (o *oracle) histChanged(run *hx.Run, before, after map[int]*qbftstorage.StoredInstance) {
+	for h, a := range before {
+		b := after[h]
+		switch {
+		case b == nil:
+			run.Violate("C15/historical-record-lost", fmt.Sprintf("the historical record of height %d disappeared", h), o.replay()...)
+		case msgStr(a.DecidedMessage) == msgStr(b.DecidedMessage):
+		case a.DecidedMessage.Message.Root != b.DecidedMessage.Message.Root:
+			run.Tag("historical:other-root-same-height") // > f faulty signers: not judged
+		case signerCount(b) > signerCount(a):
+			run.Tag("historical:more-signers")
+		default:
+			run.Violate("C15/historical-record-replaced-without-more-signers",
+				fmt.Sprintf("height %d: historical certificate %s replaced by %s", h, msgStr(a.DecidedMessage), msgStr(b.DecidedMessage)), o.replay()...)
+		}
+	}
+}
+
 // ---------------------------------------------------------------- ops
 
 type harness struct {
@@ -486,8 +510,8 @@ func (h *harness) do(line string) {
 		o.lines = nil
 		o.newProcess(nil)
 		op := fmt.Sprintf("reset full=%s q=%d", b01(full), share.Quorum)
-		if a["fix"] == "1" || os.Getenv("VERIF_HEIGHTS_FIX") == "1" {
-			op += " fix=1" // tells the model driver to use the model of the REPAIRED code (manual experiments only)
+		if a["old"] == "1" || os.Getenv("VERIF_HEIGHTS_OLD") == "1" {
+			op += " old=1" // tells the model driver to use the semantics before the fixes 358626700/26e2e6b00 (manual old-vs-new runs only)
 		}
 		o.lines = append(o.lines, op)
 		run.Tag("reset:full=" + b01(full))
@@ -498,6 +522,7 @@ func (h *harness) do(line string) {
 		panic("op before reset: " + line)
 	}
 	before := n.highest()
+	histBefore := n.lastHist
 	switch ws[0] {
 	case "start":
 		slot := atoi(ws[1])
@@ -718,6 +743,7 @@ func (h *harness) do(line string) {
 		panic("unknown op: " + line)
 	}
 	o.highestChanged(run, before, n.highest())
+	o.histChanged(run, histBefore, n.lastHist)
 }
 
 func sign(x int) int {
